@@ -129,6 +129,83 @@ func VerifH04a() {
 }
 
 // ---------------------------------------------------------------------------
+// H04k — the binary COPY row reader on hostile COPY data (C04): a handler
+// that reads binary rows with the documented helper; the client sends one
+// CopyData message holding the standard header (or none) and a tuple whose
+// field count and field length are arbitrary 16/32-bit values, followed by up
+// to V value bytes, and then ends the copy or goes away. Whatever the tuple
+// declares, nothing panics, no row is fabricated from bytes that were not
+// sent, and every allocation stays within the message limit (4 KiB granule).
+// ---------------------------------------------------------------------------
+func VerifH04k() {
+	L := vParam("L", 16)
+	V := vParam("V", 2)
+	withHeader := nondetBool()
+	count := nondetU16()
+	length := nondetU32()
+	value := nondetBytes(vChoose(V + 1))
+	var data []byte
+	if withHeader {
+		data = vCat(CopySignature, make([]byte, 8))
+		vReach("with-file-header")
+	}
+	data = vCat(data, []byte{byte(count >> 8), byte(count)},
+		[]byte{byte(length >> 24), byte(length >> 16), byte(length >> 8), byte(length)}, value)
+	vAssume(len(data) <= L+8)
+	input := vCat(vMsgBytes('Q', vCStr([]byte("q"))), vMsgBytes('d', data))
+	if nondetBool() {
+		input = vCat(input, vMsgBytes('c', nil))
+	}
+	rows := 0
+	stmt := func(ctx context.Context, dw DataWriter, params []Parameter) error {
+		cr, err := dw.CopyIn(BinaryFormat)
+		if err != nil {
+			return err
+		}
+		br, err := NewBinaryColumnReader(ctx, cr)
+		if err != nil {
+			return err
+		}
+		for k := 0; k < 3; k++ {
+			row, err := br.Read(ctx)
+			if err != nil {
+				return err
+			}
+			rows++
+			// a row that is delivered holds what was sent: one field, NULL or
+			// the declared number of bytes, all of them present in the message
+			vAssert("delivered-row-was-sent", count == 1 && len(row) == 1 &&
+				(length == 0xFFFFFFFF || int(length) <= len(value)))
+		}
+		return dw.Complete("COPY")
+	}
+	parse := func(ctx context.Context, query string) (PreparedStatements, error) {
+		return Prepared(NewStatement(stmt, WithColumns(vTextColumns(1)))), nil
+	}
+	srv, err := NewServer(parse, MessageBufferSize(L+8))
+	vAssert("newserver-ok", err == nil)
+	w := &vWorld{srv: srv}
+	w.conn = vNewConn(input)
+	w.ses, w.rd, w.wr = vSession(srv, w.conn)
+	w.ctx = vCtx(srv)
+	vAllocLimits(4096, 65535)
+	_, serr := w.step()
+	vAllocCheck()
+	_ = serr
+	vAssert("wire-wellformed", vWireOK(w.conn.out))
+	if length != 0xFFFFFFFF && int64(length) > int64(len(value)) {
+		vAssert("truncated-field-is-no-row", rows == 0)
+		vReach("field-longer-than-the-data")
+	}
+	if length >= 1<<31 && length != 0xFFFFFFFF {
+		vReach("field-length-with-the-top-bit-set")
+	}
+	if rows > 0 {
+		vReach("row-delivered")
+	}
+}
+
+// ---------------------------------------------------------------------------
 // H04b — wherever the connection breaks, handling ends (C04): serve on a
 // valid startup followed by B arbitrary bytes, with the transport failing
 // from a symbolic k-th Read or k-th Write on. serve returns within the step
